@@ -63,6 +63,7 @@ func (its *list) ResetSnapshot() {
 }
 
 func (its *list) ToJSON() interface{} {
+	defer its.readLock()()
 	return struct {
 		List []interface{}
 	}{
@@ -107,6 +108,7 @@ func (its *list) ExecuteRemote(op interface{}) (interface{}, errors.OrdaError) {
 }
 
 func (its *list) Size() int {
+	defer its.readLock()()
 	return its.snapshot().Size()
 }
 
@@ -173,6 +175,7 @@ func (its *list) DeleteMany(pos int, numOfNode int) ([]interface{}, errors.OrdaE
 }
 
 func (its *list) Get(pos int) (interface{}, errors.OrdaError) {
+	defer its.readLock()()
 	if err := its.snapshot().validateGetPosition(pos); err != nil {
 		return nil, err
 	}
@@ -180,6 +183,7 @@ func (its *list) Get(pos int) (interface{}, errors.OrdaError) {
 }
 
 func (its *list) GetMany(pos int, numOfNodes int) ([]interface{}, errors.OrdaError) {
+	defer its.readLock()()
 	if err := its.snapshot().validateGetRange(pos, numOfNodes); err != nil {
 		return nil, err
 	}
